@@ -49,13 +49,14 @@ type cacheModel struct {
 	capacity int // -1: the package's default cache (loader not ours)
 	h        cacheHandle
 	okLoads  map[uint64]int // key hash -> completed successful loads
+	badLoads map[uint64]int // key hash -> failed loads
 	asked    map[uint64]bool
 	maxSeen  int
 	resets   int
 }
 
 func newCacheModel(x *exec, capacity int) *cacheModel {
-	m := &cacheModel{x: x, capacity: capacity, okLoads: map[uint64]int{}, asked: map[uint64]bool{}}
+	m := &cacheModel{x: x, capacity: capacity, okLoads: map[uint64]int{}, badLoads: map[uint64]int{}, asked: map[uint64]bool{}}
 	if capacity < 0 {
 		m.h = currentCache()
 		return m
@@ -89,13 +90,19 @@ func (m *cacheModel) load(key interface{}) (interface{}, error) {
 		e.FailLoad = false
 		e.LoadFailed = true
 		if s != nil {
-			s.onEvent(evLoadErr, kh, nil)
+			if s.mode == 'H' || s.who() < 0 {
+				m.badLoads[kh]++
+			}
+			s.onEvent(evLoadErr, kh, nil) // in mode G the scheduler counts it
 		}
 		return nil, errInjected
 	}
 	re, err := regexp.Compile(ks)
 	if err != nil {
 		if s != nil {
+			if s.mode == 'H' || s.who() < 0 {
+				m.badLoads[kh]++
+			}
 			s.onEvent(evLoadErr, kh, nil)
 		}
 		return nil, err
@@ -138,8 +145,12 @@ func (m *cacheModel) check(step int) {
 		if re.String() != ks {
 			x.viol("cache-exact", "cache-exact:entry", fmt.Sprintf("cache entry for %q holds the compilation of %q", ks, re.String()), step)
 		}
-		if m.capacity >= 0 && m.okLoads[scn.HashString(ks)] == 0 {
-			x.viol("cache-stored-unloaded", "cache-stored-unloaded", fmt.Sprintf("cache holds an entry for %q although no load of it ever succeeded", ks), step)
+		// "does not remember failed loads": an entry for a key whose loads have
+		// all failed. (An entry for a key the loader was never asked for is not
+		// forbidden by the statement - a cache may pre-warm itself - as long as it
+		// is the exact compilation, which the test above checks.)
+		if kh := scn.HashString(ks); m.capacity >= 0 && m.okLoads[kh] == 0 && m.badLoads[kh] > 0 {
+			x.viol("cache-stored-unloaded", "cache-stored-unloaded", fmt.Sprintf("cache holds an entry for %q although every load of it failed", ks), step)
 		}
 	}
 }
